@@ -414,6 +414,9 @@ func TestC04_LargeLists(t *testing.T) {
 			}
 			sks[i] = decodeSK(g, x)
 			pks[i] = sks[i].PublicKey()
+			if g.Chance("pkOtherRoute", 1, 16) { // a few keys of the long list are held in projective form, or were decoded / aggregated
+				pks[i] = pkVariant(g, fmt.Sprintf("pkVia%d", i), blsKey{pk: pks[i], x: x})
+			}
 			sigs[i], _ = sks[i].Sign(msg, h)
 			sum.Add(sum, x)
 		}
